@@ -2,6 +2,7 @@ import Pocket.Lemmas.FindComplete
 import Pocket.Lemmas.FindNewest
 import Pocket.Thm.C06
 import Pocket.Thm.C09
+import Pocket.Lemmas.Keys
 /-
 C05 — queries return only retrievable, matching, screened-in events, newest first, without
 duplicates, at most `limit`; the redacted flag and the scraping refusal follow the stated rules.
@@ -15,9 +16,58 @@ events).  Under a binding limit, `newest_under_limit` proves "the newest `limit`
 the moving `since` and the early range exits: whatever qualifying event is left out, exactly `limit`
 events were returned and none of them is older than it (events of equal time may be chosen either
 way, as the property allows).  `answer_characterised` puts the halves together.
+
+THE BYTE KEYS (`index_key_order`, `index_range_bounds`, `tag_index_range_bounds`, `time_index_scan`,
+`author_index_scan`, `author_kind_index_scan`): the model's range scans ("the live events with these
+fields and `since ≤ t ≤ until`, newest first then ascending id") are what a bytewise-ordered table
+returns between the bounds `*_iter` builds over the keys `key_*_index` builds — prefix, big-endian
+`u64::MAX - created_at`, id; both bounds inclusive, the all-zero and all-ones ids included.  What is
+left to trust about LMDB is that it iterates a range in bytewise key order; that the real tables hold
+exactly these keys in that order is compared on every step (`KYS`, a `verif` hook).
 -/
 namespace Pocket.C05
 open Pocket
+
+/-- two keys of one index table that share their prefix compare bytewise like (newest first, then
+ascending id) -/
+theorem index_key_order (P : Bytes) (t1 t2 : Nat) (id1 id2 : Bytes) (h1 : t1 ≤ U64MAX) (h2 : t2 ≤ U64MAX) :
+    bytesLt (P ++ (revTime t1 ++ id1)) (P ++ (revTime t2 ++ id2)) =
+      (decide (t1 > t2) || (t1 == t2 && bytesLt id1 id2)) := key_order P t1 t2 id1 id2 h1 h2
+
+/-- a key lies within the (inclusive) bounds of a range scan iff its prefix is the probe's and its
+time is in the window, whatever its id -/
+theorem index_range_bounds (P P' : Bytes) (hP : P'.length = P.length) (since «until» t : Nat) (id : Bytes)
+    (hs : since ≤ U64MAX) (hu : «until» ≤ U64MAX) (ht : t ≤ U64MAX) (hid : id.length = 32) (hb : ∀ b ∈ id, b < 256) :
+    inRange (P ++ (revTime «until» ++ zeros32)) (P ++ (revTime since ++ ffs32)) (P' ++ (revTime t ++ id)) =
+      (P' == P && decide (since ≤ t) && decide (t ≤ «until»)) :=
+  key_in_range P P' hP since «until» t id hs hu ht hid hb
+
+/-- the tag index: the prefix is the tag letter and the value padded with zeros (or cut) to 182 bytes -/
+theorem tag_index_range_bounds (l l' : Nat) (v v' : Bytes) (since «until» t : Nat) (id : Bytes) (hs : since ≤ U64MAX)
+    (hu : «until» ≤ U64MAX) (ht : t ≤ U64MAX) (hid : id.length = 32) (hb : ∀ b ∈ id, b < 256) :
+    inRange (keyTc l v «until» zeros32) (keyTc l v since ffs32) (keyTc l' v' t id) =
+      ((l' == l && pad182 v' == pad182 v) && decide (since ≤ t) && decide (t ≤ «until»)) :=
+  tc_range l l' v v' since «until» t id hs hu ht hid hb
+
+/-- a range read of the time index over its byte keys is the model's scan -/
+theorem time_index_scan (live : List SEv) (hw : ∀ x ∈ live, KeyWf x) (since «until» : Nat)
+    (hs : since ≤ U64MAX) (hu : «until» ≤ U64MAX) :
+    byteScan live (fun x => keyCi x.e.createdAt x.e.id) (keyCi «until» zeros32) (keyCi since ffs32) =
+      ciScan live since «until» := ci_byteScan live hw since «until» hs hu
+
+theorem author_index_scan (live : List SEv) (hw : ∀ x ∈ live, KeyWf x) (author : Bytes) (ha : author.length = 32)
+    (since «until» : Nat) (hs : since ≤ U64MAX) (hu : «until» ≤ U64MAX) :
+    byteScan live (fun x => keyAc x.e.pubkey x.e.createdAt x.e.id) (keyAc author «until» zeros32) (keyAc author since ffs32) =
+      acScan live author since «until» := ac_byteScan live hw author ha since «until» hs hu
+
+theorem author_kind_index_scan (live : List SEv) (hw : ∀ x ∈ live, KeyWf x) (author : Bytes) (ha : author.length = 32)
+    (kind : Nat) (hk : kind < 65536) (since «until» : Nat) (hs : since ≤ U64MAX) (hu : «until» ≤ U64MAX) :
+    byteScan live (fun x => keyAkc x.e.pubkey x.e.kind x.e.createdAt x.e.id) (keyAkc author kind «until» zeros32)
+      (keyAkc author kind since ffs32) = akcScan live author kind since «until» :=
+  akc_byteScan live hw author ha kind hk since «until» hs hu
+
+/-- the boundary case of defect #11 holds in the byte model: the all-ones id at `created_at = since` is inside -/
+example : inRange (keyCi 200 zeros32) (keyCi 100 ffs32) (keyCi 100 ffs32) = true := by decide +kernel
 
 /-- whatever index serves the filter, every returned event is currently retrievable, matches the
 filter (by C06: under NIP-01 semantics) and passed the screen; the answer has no duplicates, is
